@@ -494,14 +494,19 @@ def _rand_model_once(rng, P):  # noqa: C901, PLR0912, PLR0915
     dchoices = [v for v in vars_ if v["role"] == "choice" and v["kind"] == "disc" and v not in pads]
     if has_h:
         if h_stoch:
-            deps = ["h"]
-            if dchoices and rng.random() < 0.8:
+            # h_not_own (profile flag, no random draw): the stochastic state is not among its own dependencies -- a shock that
+            # is serially independent but whose distribution depends on the agent's other variables
+            deps = [] if (P.get("h_not_own") and (dchoices or has_r)) else ["h"]
+            if dchoices and (rng.random() < 0.8 or not deps):
                 deps.append(rng.choice(dchoices)["name"])
             if T > 1 and rng.random() < 0.6 and not P["no_period"]:
                 deps.append("_period")
             if has_r and rng.random() < 0.4:
                 deps.append("r")
+            if not [d for d in deps if d != "_period"]:
+                deps.append("h")
             deps = _shuf(rng, deps, P)
+            feat["stochastic_without_own_lag"] = "h" not in deps
             funcs.append(mkfunc("next_h", "stoch", deps, state="h"))
             shape = [T if d == "_period" else next(v for v in vars_ if v["name"] == d)["n"] for d in deps]
             params.setdefault("shocks", {})["h"] = _rows(rng, shape, nh, bool(P.get("onehot")) and (P.get("onehot") == "always" or rng.random() < 0.8))
